@@ -422,7 +422,21 @@ func raceSignature(stderr string) string {
 	return fs[0] + "+" + fs[1]
 }
 
+// withoutIO drops the lookups that lead through an input or output.
+func withoutIO(ps []PathQ) []PathQ {
+	var keep []PathQ
+	for _, p := range ps {
+		if !strings.Contains(p.Path, ":input") && !strings.Contains(p.Path, ":output") {
+			keep = append(keep, p)
+		}
+	}
+	return keep
+}
+
 func check(c Case) (o ev.Outcome) {
+	if c.Erroneous {
+		c.Paths = withoutIO(c.Paths) // see gen: no augment is applied in such a set
+	}
 	self := os.Getenv("VERIF_SELF")
 	if self == "" {
 		self, _ = os.Executable()
@@ -642,6 +656,10 @@ func gen(t *rapid.T) Case {
 		// every module gets three unknown groupings at its top (errors of its own) and a container holding an
 		// unknown type and another unknown grouping (errors of descendants)
 		c.Erroneous = true
+		// Process stops at the errors before any augment is applied: an input or output that only an augment
+		// would have made does not exist then, and the step into it would create it (a write). No lookup of
+		// such a set leads through an input or output.
+		c.Paths = withoutIO(c.Paths)
 		for i := range c.Sets[0] {
 			txt := c.Sets[0][i].Text
 			if k := strings.LastIndex(txt, "}"); k > 0 && strings.HasPrefix(strings.TrimSpace(txt), "module") {
